@@ -67,6 +67,7 @@ type ReqRec struct {
 	Seq    int
 	Step   int
 	At     time.Duration
+	Issued time.Duration // when the client issued it (before request latency)
 	G      string
 	Method string
 	Scheme string
@@ -81,6 +82,8 @@ type ReqRec struct {
 	// Kind is filled by the server: batch, download, upload, verify, locks…
 	Kind string
 	Oid  string
+	// Delivered: the response reached the client (not lost on the way).
+	Delivered bool
 	// Via: request was produced by following a redirect chain.
 	Redirected bool
 }
@@ -137,6 +140,7 @@ func (rt *simRT) RoundTrip(req *http.Request) (*http.Response, error) {
 	n := rt.n
 	s := n.S
 	s.parkAt("rt", nil, -1, false)
+	issued := time.Since(s.Start)
 	if n.LatencyMaxMs > 0 {
 		s.Sleep(time.Duration(n.T.Choose(n.LatencyMaxMs+1, "lat-req"))*time.Millisecond, "rt.lat")
 	}
@@ -153,7 +157,7 @@ func (rt *simRT) RoundTrip(req *http.Request) (*http.Response, error) {
 		harnessf("two requests inside the virtual internet at once")
 	}
 	rec := &ReqRec{
-		Seq: len(n.Log), Step: s.Step, At: time.Since(s.Start),
+		Seq: len(n.Log), Step: s.Step, At: time.Since(s.Start), Issued: issued,
 		Method: req.Method, Scheme: req.URL.Scheme, Host: req.URL.Host, Path: req.URL.Path,
 		Query: req.URL.RawQuery, URL: req.URL.String(), Header: req.Header.Clone(), Body: body,
 	}
@@ -182,6 +186,7 @@ func (rt *simRT) RoundTrip(req *http.Request) (*http.Response, error) {
 	}
 	rec.Status = resp.Status
 	rec.Note = resp.Note
+	rec.Delivered = resp.Err == nil
 	n.busy.Unlock()
 	if n.LatencyMaxMs > 0 {
 		s.Sleep(time.Duration(n.T.Choose(n.LatencyMaxMs+1, "lat-resp"))*time.Millisecond, "rt.lat2")
